@@ -3,6 +3,7 @@ import Nstd.Json.LemmasParse
 import Nstd.Json.LemmasRT
 import Nstd.Json.LemmasAgree
 import Nstd.Json.LemmasTokInv
+import Nstd.Json.LemmasBytes
 /-
   Property C15 (JSON: total, safe, round trip; stripComments removes exactly the comments).
   Only the property theorems and their non-vacuity examples live here.
@@ -48,6 +49,28 @@ theorem error_pos_inside (buf : List Byte) (h : 0 ∈ buf) (l c : Nat) (he : par
   have := parse_safe buf h
   rw [he] at this; exact this
 
+/-- the position is that of the cursor at which the parser stopped: `parseRaw` is `parse` before the
+    column is computed (its failure carries the cursor `p` handed to `syntaxError`); `p` is a suffix of the
+    buffer, the bytes before it are NUL-free (so its offset `|pre|` is ≤ strlen), and the reported
+    line / column are exactly the line / column of that offset -/
+theorem error_pos_at_cursor (buf : List Byte) (h : 0 ∈ buf) (l c : Nat) (he : parse buf = .err l c) :
+    ∃ pre p, parseRaw buf = .fail l p ∧ buf = pre ++ p ∧ 0 ∉ pre ∧ 0 ∈ p ∧ pre.length ≤ (cstr buf).length ∧
+      l = lineOf (cstr buf) pre.length ∧ c = colOf (cstr buf) pre.length := by
+  have hpost := parseRaw_post buf h
+  rw [parse_eq_raw] at he
+  cases hr : parseRaw buf with
+  | ok v => rw [hr] at he; cases he
+  | fail l' p =>
+    rw [hr] at he hpost
+    simp only [PRes.err.injEq] at he
+    obtain ⟨pre, h1, h2, h3, h4, h5, h6⟩ := Pos.located_at hpost
+    exact ⟨pre, p, by rw [he.1], h1, h2, h3, h4, by rw [← he.1]; exact h5, by rw [← he.2]; exact h6⟩
+  | oob => rw [hr] at he; cases he
+  | nofuel => rw [hr] at he; cases he
+
+-- the error of `[1,` LF ` x` is reported at the cursor of the `x` (offset 5: line 2, column 2), where the tokenizer gave up
+example : parseRaw [91, 49, 44, 10, 32, 120, 0] = .fail 2 [120, 0] := by rfl
+
 /-- hence 1 ≤ line ≤ number of lines, and 1 ≤ column ≤ length of that line + 1 -/
 theorem error_pos_bounds (buf : List Byte) (h : 0 ∈ buf) (l c : Nat) (he : parse buf = .err l c) :
     1 ≤ l ∧ l ≤ lineCount (cstr buf) ∧ 1 ≤ c ∧
@@ -79,6 +102,24 @@ theorem roundtrip (v : Val) (h : wf v) :
 theorem roundtrip_exact (v : Val) (h : wf v) (hn : norm v = v) : parse (toString v ++ [0]) = .ok v := by
   rw [roundtrip_norm v h, hn]
 
+/-- in particular the text written by `toString` is accepted by `parse` (this, not RFC validity, is
+    what is proved about the serialiser; validity for Python's `json.loads` is tested by the check) -/
+theorem toString_accepted (v : Val) (h : wf v) : ∃ v', parse (toString v ++ [0]) = .ok v' :=
+  ⟨norm v, roundtrip_norm v h⟩
+
+/-! Bytes are `Nat` in the model (notation `Byte`), so all theorems of this file quantify over a
+    superset of the byte strings and hold in particular for every list of numbers < 256; no statement
+    needs the bound.  Where the model CREATES bytes they are bytes: -/
+
+/-- `Unicode::append` produces bytes for every code point -/
+theorem utf8_is_bytes (ch : Nat) : ∀ b ∈ utf8 ch, b < 256 := utf8_bytes ch
+
+/-- serialising a tree whose strings and keys are bytes gives bytes -/
+theorem toString_is_bytes (v : Val) (h : vbytes v) : ∀ b ∈ toString v, b < 256 := toString_bytes v h
+
+example : vbytes (.map [([97, 255], .list [.str [0, 200], .int 5])]) := by
+  simp [vbytes, vbytesMap, vbytesList, BytesOK]
+
 -- non-vacuity: a tree with control characters, quotes, backslashes, a 64-bit integer, nesting
 example : wf (.map [([97, 10, 34], .list [.int (-5), .int64 5000000000, .str [1, 92, 31, 200], .null, .bool true]),
     ([], .map [])]) := by
@@ -105,6 +146,12 @@ theorem strip_keeps_line_breaks (buf : List Byte) (h : 0 ∈ buf) :
 theorem strip_sublist (buf : List Byte) (h : 0 ∈ buf) :
     ∃ out, stripComments buf = .ok out ∧ out.Sublist (cstr buf) :=
   ⟨_, strip_spec buf h, stripSpec_sublist _ _⟩
+
+/-- the result is never longer than the text: the writes through `dest` stay inside the
+    `String result(data.length())` that `stripComments` allocates -/
+theorem strip_length_le (buf : List Byte) (h : 0 ∈ buf) :
+    ∃ out, stripComments buf = .ok out ∧ out.length ≤ (cstr buf).length :=
+  ⟨_, strip_spec buf h, (stripSpec_sublist _ _).length_le⟩
 
 /-- a text without any `/` (in particular JSON without comments and without `/` in strings) is
     returned unchanged -/
